@@ -50,6 +50,10 @@ type TSpec struct {
 	Frac  int    `json:"frac"` // fractional digits 0..9
 	Zone  int    `json:"zone"` // minutes east of UTC (Fmt 2)
 	Delay int64  `json:"delay"`
+	// AbsYear != 0: the text is an absolute calendar time in that year (0001..1700 or 2300..9999),
+	// i.e. centuries away from any request time; its distance mostly does not fit an int64
+	// duration (time.Sub saturates).  Never re-rendered; always outside every drift.
+	AbsYear int `json:"abs_year,omitempty"`
 }
 
 type Line struct {
@@ -126,6 +130,30 @@ func (s TSpec) render(tn int64) string {
 	out := fmt.Sprintf("%04d-%02d-%02d%s%02d:%02d:%02d", t.Year(), int(t.Month()), t.Day(), sep, t.Hour(), t.Minute(), t.Second())
 	if s.Frac > 0 {
 		out += "." + fmt.Sprintf("%09d", t.Nanosecond())[:s.Frac]
+	}
+	switch s.Fmt {
+	case 1:
+		out += "Z"
+	case 2:
+		z, sign := s.Zone, '+'
+		if z < 0 {
+			z, sign = -z, '-'
+		}
+		out += fmt.Sprintf("%c%02d:%02d", sign, z/60, z%60)
+	}
+	return out
+}
+
+// renderAbs writes a local calendar time of year AbsYear in the spec's format (the zone suffix
+// only shifts the instant by hours, never out of "centuries away").
+func (s TSpec) renderAbs(month, day, sec, ns int) string {
+	sep := "T"
+	if s.Fmt == 0 {
+		sep = " "
+	}
+	out := fmt.Sprintf("%04d-%02d-%02d%s%02d:%02d:%02d", s.AbsYear, month, day, sep, sec/3600, sec/60%60, sec%60)
+	if s.Frac > 0 {
+		out += "." + fmt.Sprintf("%09d", ns)[:s.Frac]
 	}
 	switch s.Fmt {
 	case 1:
@@ -287,6 +315,36 @@ func genDoc(t *rapid.T, serial int, o docOpts) Line {
 				break
 			}
 			sp := TSpec{Field: s.name}
+			if rapid.IntRange(0, 9).Draw(t, "tfabs") == 9 {
+				// absolute calendar time centuries ahead of / behind the request time
+				switch rapid.IntRange(0, 5).Draw(t, "absyear") {
+				case 0:
+					sp.AbsYear = rapid.IntRange(2300, 9999).Draw(t, "yahead")
+				case 1:
+					sp.AbsYear = rapid.SampledFrom([]int{2400, 2300, 2318, 2319, 2554, 3000, 9999}).Draw(t, "yahead")
+				case 2:
+					sp.AbsYear = rapid.IntRange(1, 1700).Draw(t, "yback")
+				case 3:
+					sp.AbsYear = rapid.SampledFrom([]int{1700, 1, 1677, 1678, 1492, 100, 1000}).Draw(t, "yback")
+				case 4:
+					sp.AbsYear = 2400
+				default:
+					sp.AbsYear = 1600
+				}
+				sp.Fmt = rapid.IntRange(0, 2).Draw(t, "tfmt")
+				if sp.Fmt == 2 {
+					sp.Zone = rapid.SampledFrom([]int{180, -450, 0, 345, -720, 840}).Draw(t, "zone")
+				}
+				sp.Frac = rapid.SampledFrom([]int{0, 3, 9, 1, 6}).Draw(t, "frac")
+				txt := sp.renderAbs(rapid.IntRange(1, 12).Draw(t, "absmonth"), rapid.IntRange(1, 28).Draw(t, "absday"),
+					rapid.IntRange(0, 86399).Draw(t, "abssec"), rapid.IntRange(0, 999_999_999).Draw(t, "absns"))
+				sp.Off, sp.Len = len(w.b)+1, len(txt)
+				w.b = append(w.b, '"')
+				w.b = append(w.b, txt...)
+				w.b = append(w.b, '"')
+				byField[s.name] = sp
+				break
+			}
 			var exact bool
 			sp.Delay, exact = genDelay(t, o)
 			sp.Fmt = rapid.IntRange(0, 2).Draw(t, "tfmt")
@@ -760,6 +818,25 @@ func verifyStored(c Case, ri int, exp []expLine, calls []stored, accepted int, w
 			continue
 		}
 		sp := e.times[0]
+		if sp.AbsYear != 0 {
+			// centuries away from the request: outside every drift, so the receive time it is
+			cls := "time-centuries-ahead"
+			if sp.AbsYear < 2000 {
+				cls = "time-centuries-back"
+			}
+			labels[cls] = true
+			labels[fmt.Sprintf("%s:fmt%d", cls, sp.Fmt)] = true
+			labels[fmt.Sprintf("%s:%s", cls, sp.Field)] = true
+			if sp.AbsYear >= 2319 || sp.AbsYear <= 1700 {
+				labels["time-distance-beyond-int64-duration"] = true
+			}
+			res.NonTrivial = true
+			if mid < win.lo/1e6 || mid > win.hi/1e6 {
+				return nil, nil, evid.Failf("mid-centuries-away", "req %d doc %d %s: time field %s is in year %d, outside every drift, but MID=%d (%s), want the request time [%d,%d]",
+					ri, k, abbrev(docs[k]), sp.Field, sp.AbsYear, uint64(m.ID.MID), time.UnixMilli(mid).UTC().Format(time.RFC3339), win.lo/1e6, win.hi/1e6)
+			}
+			continue
+		}
 		dt := sp.docTime(win.lo)
 		a, b := inDrift(win.lo, dt), inDrift(win.hi, dt)
 		labels[fmt.Sprintf("timefield:%s", sp.Field)] = true
@@ -940,6 +1017,9 @@ func runCase(c Case) (res evid.Result, _ error) {
 				body = append(body, nl...)
 				text := l.expand()
 				for _, sp := range l.Times {
+					if sp.AbsYear != 0 {
+						continue // absolute calendar time: independent of the wall clock
+					}
 					s := sp.render(sp.docTime(t0.UnixNano()))
 					if len(s) != sp.Len || sp.Off+sp.Len > len(text) {
 						return res, fmt.Errorf("harness: time field re-rendered with another length (%q vs %d)", s, sp.Len)
